@@ -638,3 +638,6 @@ def replay_destructure(rp):
 
 
 REPLAY = {"src": replay_src, "augop": replay_augop, "destructure": replay_destructure}
+
+from suites import thorough as _th
+GROUPS["thorough:destructuring-programs"] = _th.bounded_from_replay("bounded/destructuring-programs", replay_destructure)
